@@ -11,6 +11,40 @@ from pynetdicom.dimse_primitives import C_STORE, C_ECHO
 from pynetdicom.presentation import PresentationContext
 
 rec = load()
+
+
+def decode_context_check():
+    """native: the REAL encode_msg / decode_msg - a request whose command set is sent on one context id and whose data-set
+    fragments are relabelled with another: the received message's context id must be the command set's"""
+    from io import BytesIO
+    from pynetdicom.dimse_messages import C_STORE_RQ, DIMSEMessage
+    from pynetdicom.dimse_primitives import C_STORE
+    from pynetdicom.pdu_primitives import P_DATA
+    p = C_STORE()
+    p.MessageID, p.AffectedSOPClassUID, p.AffectedSOPInstanceUID, p.Priority = 1, "1.2.840.10008.5.1.4.1.1.2", "1.2.3", 2
+    p.DataSet = BytesIO(b"\x08\x00\x18\x00\x04\x00\x00\x001.2\x00" * 20)
+    m = C_STORE_RQ()
+    m.primitive_to_message(p)
+    for cmd_ctx, data_ctx in ((3, 1), (9, 5), (1, 1)):
+        rx = DIMSEMessage()
+        done_ = False
+        for pd in m.encode_msg(cmd_ctx, 64):
+            q = P_DATA()
+            q.presentation_data_value_list = [[cmd_ctx if (v[0] & 1) else data_ctx, v] for (_c, v) in pd.presentation_data_value_list]
+            done_ = rx.decode_msg(q)
+        if not done_ or rx.context_id != cmd_ctx:
+            return dict(input={"command-set fragments sent on context id": cmd_ctx, "data-set fragments sent on context id": data_ctx},
+                        observed={"message complete": done_, "context id recorded for the received message": rx.context_id},
+                        expected={"context id recorded for the received message": cmd_ctx})
+    return None
+
+
+if "decode_msg" in rec.get("id", "") or rec.get("id", "").endswith("cross-check"):
+    _bad = decode_context_check()
+    if _bad:
+        done(True, **_bad)
+    if "decode_msg" in rec.get("id", ""):
+        done(False, note="the received message's context id is the one of its command set")
 CT = "1.2.840.10008.5.1.4.1.1.2"
 
 
